@@ -106,6 +106,22 @@ func syncLockCall(info *types.Info, call *ast.CallExpr) (ref lockRef, op string,
 	return
 }
 
+// poolAcquire: a call that may wait for a connection of the database/sql pool
+func poolAcquire(f *types.Func) bool {
+	if f == nil || f.Pkg() == nil || f.Pkg().Path() != "database/sql" {
+		return false
+	}
+	rn := core.RecvNamed(f)
+	if rn == nil || rn.Obj().Name() != "DB" {
+		return false
+	}
+	switch f.Name() {
+	case "Conn", "Begin", "BeginTx", "Query", "QueryContext", "QueryRow", "QueryRowContext", "Exec", "ExecContext", "Prepare", "PrepareContext", "Ping", "PingContext":
+		return true
+	}
+	return false
+}
+
 func recvVarOf(f *core.FuncInfo) types.Object {
 	if f.Decl.Recv == nil || len(f.Decl.Recv.List) == 0 || len(f.Decl.Recv.List[0].Names) == 0 {
 		return nil
@@ -212,6 +228,7 @@ func c20Reentry(r *core.Run) {
 		}
 	}
 	// per function: locks held at call sites
+	poolReach := newReach(w, 4, poolAcquire)
 	for _, f := range fns {
 		info := f.Pkg.TypesInfo
 		hasLock := false
@@ -240,12 +257,44 @@ func c20Reentry(r *core.Run) {
 				}
 				return []flow.Tag{"-held:" + key}
 			}
+			if poolAcquire(callee) {
+				return []flow.Tag{"poolacq"}
+			}
 			if w.Info(callee) != nil {
+				if poolReach.Hits(callee) {
+					return []flow.Tag{"call", "poolacq"}
+				}
 				return []flow.Tag{"call"}
 			}
 			return nil
 		}}
 		res := sp.Analyze(f)
+		calls := append([]*flow.CallPoint{}, res.Calls...)
+		// (critical sections written inside function literals: the refresh closure of the meta cache)
+		ast.Inspect(f.Decl.Body, func(n ast.Node) bool {
+			if lit, ok := n.(*ast.FuncLit); ok {
+				calls = append(calls, sp.AnalyzeLit(f.Pkg, lit).Calls...)
+				return false
+			}
+			return true
+		})
+		seenAcq := map[*ast.CallExpr]bool{}
+		for _, cp := range calls {
+			if cp.Defer || !inSet("poolacq", cp.Tags...) || seenAcq[cp.Call] {
+				continue
+			}
+			seenAcq[cp.Call] = true
+			var held []string
+			for _, t := range cp.Before.MayTags() {
+				if strings.HasPrefix(t, "held:") {
+					held = append(held, strings.TrimPrefix(t, "held:"))
+				}
+			}
+			sort.Strings(held)
+			r.Sites++
+			r.Check(len(held) == 0, "C20.block", core.ShortKey(f.Obj)+" takes a pooled connection ("+core.ShortKey(cp.Callee)+") with no mutex held", w.Pos(cp.Call.Pos()), "no sync mutex held at the acquisition",
+				"a connection is requested from the database/sql pool while "+strings.Join(held, ", ")+" may be held: the lookup path takes that lock while it holds a pooled connection, so with the pool at its limit each side waits for what the other holds — every transaction on the data source stops and the held connections are never returned")
+		}
 		for _, cp := range res.Calls {
 			if cp.Defer {
 				continue
